@@ -16,8 +16,8 @@ ID = "C10"
 LEVEL = "model_checking"
 RULE = (
     "full TR(d) = 2^d flips x d! axis permutations x padding patterns (per axis (0,0),(1,0),(0,3),(3,3); 3-D: (0,0),(3,3)) x layout pairs (prediction, reference) in {(C,C),(F,F),(neg,neg),(strided,strided),(F,C),(C,F),(neg,C),(strided,F)}: "
-    "1-D 64 transforms on all pairs of G1(3,2); 2-D 1024 transforms on 32 base pairs of G2(2,3,2) (thorough 128 + all of G2(2,2,2)^2 x UNMATCHED); 3-D 3072 transforms on 4 (thorough 16) base pairs of G3(2,2,2,2); x input type {SEMANTIC, UNMATCHED, MATCHED}. "
-    "generators (each single flip, transposition, padding pattern alone, all 16 (prediction, reference) layout pairs alone, mixed layouts combined with every axis permutation) on G1(4,2) x 27 refs and G2(2,2,2) x 9 refs (thorough: all refs, + G2(2,3,2) x 27, G3(2,2,2,1) x 27) x {UNMATCHED, SEMANTIC}. "
+    "1-D 64 transforms on G1(3,2) x 9 refs (thorough: all pairs); 2-D 1024 transforms on 16 base pairs of G2(2,3,2) (thorough 128 + all of G2(2,2,2)^2 x UNMATCHED); 3-D 3072 transforms on 2 (thorough 16) base pairs of G3(2,2,2,2); x input type {SEMANTIC, UNMATCHED, MATCHED}. "
+    "generators (each single flip, transposition, padding pattern alone, all 16 (prediction, reference) layout pairs alone, mixed layouts combined with every axis permutation) on G1(4,2) x 9 refs and G2(2,2,2) x 9 refs (thorough: all refs, + G2(2,3,2) x 27, G3(2,2,2,1) x 27) x {UNMATCHED, SEMANTIC}; generators on single-slice volumes G3(1,2,2,2), G3(2,2,1,2) x 3 refs (thorough 27) x SEMANTIC. "
     "non-trivial = both sides non-empty with a candidate pair and a non-identity transform; distinct by (base, transform, input type)"
 )
 ASSUMPTIONS = ["guard: equality only when no two competing candidate pairs tie; otherwise the transformed result must be an admissible result of the reference model"]
@@ -49,18 +49,23 @@ def blocks(tier):
     B = []
     n1 = sc.grid_count((3,), 2)
     for lo, hi in sc.ranges(n1, 1):
-        B.append(("full1", lo, hi))
-    for b in range(32 if tier == "quick" else 128):
+        B.append(("full1", tier, lo, hi))
+    for b in range(16 if tier == "quick" else 128):
         B.append(("full2", tier, b))
-    for b in range(4 if tier == "quick" else 16):
+    for b in range(2 if tier == "quick" else 16):
         for part in range(4):
             B.append(("full3", tier, b, part))
     n = sc.grid_count((4,), 2)
     for lo, hi in sc.ranges(n, 2):
-        B.append(("gen", (4,), 2, 27 if tier == "quick" else None, lo, hi))
+        B.append(("gen", (4,), 2, 9 if tier == "quick" else None, lo, hi))
     n = sc.grid_count((2, 2), 2)
     for lo, hi in sc.ranges(n, 2):
         B.append(("gen", (2, 2), 2, 9 if tier == "quick" else None, lo, hi))
+    # 3-D arrays with a singleton axis (single-slice volumes): padding the thin axis makes them 'really' 3-D
+    for shape in ((1, 2, 2), (2, 2, 1)):
+        n = sc.grid_count(shape, 2)
+        for lo, hi in sc.ranges(n, 3):
+            B.append(("gen", shape, 2, 3 if tier == "quick" else 27, lo, hi, "SEMANTIC"))
     if tier == "thorough":
         n = sc.grid_count((2, 3), 2)
         for lo, hi in sc.ranges(n, 4):
@@ -77,20 +82,20 @@ def blocks(tier):
 def run_block(block, acc):
     kind = block[0]
     if kind == "full1":
-        _, lo, hi = block
+        _, tier, lo, hi = block
         n = sc.grid_count((3,), 2)
         for i in range(lo, hi):
-            for j in range(n):
+            for j in ref_indices(n, 9 if tier == "quick" else None):
                 for itype in ("SEMANTIC", "UNMATCHED", "MATCHED"):
                     run_case({"kind": "full", "shape": [3], "k": 2, "pi": i, "ri": j, "itype": itype}, acc)
     elif kind == "full2":
         _, tier, b = block
-        i, j = bases2d(32 if tier == "quick" else 128)[b]
+        i, j = bases2d(16 if tier == "quick" else 128)[b]
         for itype in ("SEMANTIC", "UNMATCHED", "MATCHED"):
             run_case({"kind": "full", "shape": [2, 3], "k": 2, "pi": i, "ri": j, "itype": itype}, acc)
     elif kind == "full3":
         _, tier, b, part = block
-        i, j = bases3d(4 if tier == "quick" else 16)[b]
+        i, j = bases3d(2 if tier == "quick" else 16)[b]
         for itype in ("SEMANTIC", "UNMATCHED", "MATCHED"):
             run_case({"kind": "full", "shape": [2, 2, 2], "k": 2, "pi": i, "ri": j, "itype": itype, "part": part}, acc)
     elif kind == "full2all":
@@ -100,11 +105,11 @@ def run_block(block, acc):
             for j in range(n):
                 run_case({"kind": "full", "shape": [2, 2], "k": 2, "pi": i, "ri": j, "itype": "UNMATCHED"}, acc)
     else:
-        _, shape, k, nref, lo, hi = block
+        shape, k, nref, lo, hi = block[1:6]
         n = sc.grid_count(shape, k)
         for i in range(lo, hi):
             for j in ref_indices(n, nref):
-                for itype in ("UNMATCHED", "SEMANTIC"):
+                for itype in (("UNMATCHED", "SEMANTIC") if len(block) < 7 else (block[6],)):
                     run_case({"kind": "gen", "shape": list(shape), "k": k, "pi": i, "ri": j, "itype": itype}, acc)
 
 
